@@ -11,9 +11,10 @@ import (
 )
 
 type bomSite struct {
-	n     int
-	atoms map[string]bool
-	pos   token.Pos
+	n      int
+	atoms  map[string]bool
+	pos    token.Pos
+	inLoop bool // the skip is decided inside a loop: it would be applied to every buffer of a stream
 }
 
 // bomSites finds, in an entry function, every place where a positive constant
@@ -141,5 +142,23 @@ func bomSites(pk *packages.Package, fd *ast.FuncDecl) []bomSite {
 		})
 	}
 	walk(fd.Body, map[string]bool{})
+	// a skip decided inside a for statement is taken again for every refill
+	ast.Inspect(fd.Body, func(n ast.Node) bool {
+		var body *ast.BlockStmt
+		switch l := n.(type) {
+		case *ast.ForStmt:
+			body = l.Body
+		case *ast.RangeStmt:
+			body = l.Body
+		}
+		if body != nil {
+			for i := range sites {
+				if body.Pos() <= sites[i].pos && sites[i].pos <= body.End() {
+					sites[i].inLoop = true
+				}
+			}
+		}
+		return true
+	})
 	return sites
 }
